@@ -270,6 +270,18 @@ func Builtin() map[string]Machine {
 	}
 	add(m)
 
+	// 2 sockets whose CPUs disagree on the cache level useful for grouping: socket 0 has private L2s and an L3
+	// split in two halves {0,1} {2,3}; socket 1 has L2s shared by core pairs {4,5} {6,7} under one socket-wide L3
+	m = Machine{Name: "mixed-cache8"}
+	for i := 0; i < 8; i++ {
+		c := CPU{ID: i, Pkg: i / 4, Cluster: i, Core: i, Node: i / 4, L2: 10 + i, L3: i / 2}
+		if i >= 4 {
+			c.L2, c.L3 = 20+i/2, 9
+		}
+		m.CPUs = append(m.CPUs, c)
+	}
+	add(m)
+
 	// 6-CPU machines: two sockets x 3 single-thread cores, non-contiguous CPU numbering by interleaving
 	m = Machine{Name: "2pkg-interleaved6"}
 	for i := 0; i < 6; i++ {
